@@ -101,16 +101,26 @@ Choices ==
                    r \in {"a", "b", "u"}, t \in {0} \cup ((Sz + 2)..MaxNodes)}
          \cup {[Node(0, "var") EXCEPT !.asg = a] :
                    a \in {<<<<"a", Lit(1)>>>>, <<<<"a", Lit(2)>>>>, <<<<"b", RdV("a")>>>>,
-                          <<<<"a", RdV("b")>>, <<"b", RdV("a")>>>>, <<<<"a", Lit(3)>>, <<"b", Lit(0)>>>>}}
+                          <<<<"a", RdV("b")>>, <<"b", RdV("a")>>>>, <<<<"a", Lit(3)>>, <<"b", Lit(0)>>>>,
+                          <<<<"a", Lit(2)>>, <<"b", RdV("a")>>>>}}
          \cup {[Node(0, "if") EXCEPT !.cond = RdV("b")]}
          \cup {[Node(0, "loop") EXCEPT !.form = "count", !.cnt = 2, !.lv = "b"]}
+    [] Family = "scope0" ->
+         \* no initial <var>: the first assignment may happen inside an open scope
+         {[Node(0, "g") EXCEPT !.loc = l] : l \in {<<>>, <<<<"a", 1>>>>, <<<<"b", 2>>>>}}
+         \cup {[Node(0, "leaf") EXCEPT !.rd = r, !.ref = t] : r \in {"a", "b"}, t \in {0} \cup ((Sz + 2)..MaxNodes)}
+         \* (assignments from a possibly undefined variable are left out: the value
+         \* would be the verbatim reference, whose later meaning is macro expansion)
+         \cup {[Node(0, "var") EXCEPT !.asg = a] :
+                   a \in {<<<<"a", Lit(2)>>>>, <<<<"b", Lit(1)>>>>, <<<<"a", Lit(3)>>, <<"b", Lit(0)>>>>}}
+         \cup {[Node(0, "reuse") EXCEPT !.href = h, !.loc = l] : h \in ExistingIds({"leaf", "g"}), l \in {<<>>, <<<<"a", 3>>>>}}
     [] Family = "order" ->
          {[Node(0, "leaf") EXCEPT !.ref = t, !.lit = l] : t \in 0..MaxNodes, l \in BOOLEAN}
          \cup {Node(0, "g")}
     [] Family = "reuse" ->
          {Node(0, "specs"), Node(0, "cont")}
          \cup {[Node(0, "g") EXCEPT !.loc = l] : l \in {<<>>, <<<<"a", 1>>>>}}
-         \cup {[Node(0, "leaf") EXCEPT !.rd = r] : r \in {"-", "a", "b"}}
+         \cup {[Node(0, "leaf") EXCEPT !.rd = r, !.ref = t] : r \in {"-", "a", "b"}, t \in {0, Sz + 2, Sz + 3} \cap (0..MaxNodes)}
          \cup {[Node(0, "reuse") EXCEPT !.href = h, !.loc = l] :
                    h \in ExistingIds({"leaf", "g"}) \cup {Sz + 2},
                    l \in {<<>>, <<<<"a", 2>>>>, <<<<"a", 3>>, <<"b", 1>>>>}}
@@ -139,10 +149,16 @@ AllNodesOK(list) == \A i \in 1..Len(list) :
                         /\ ~(HasRef(list[i]) /\ EscWrites(list[i]))
                         /\ AllNodesOK(list[i].ch)
 
+\* templates inside <specs> do not themselves refer to other elements (whether
+\* such a template "resolves" is not observable until it is reused)
+SpecsRefFree == \A n \in SeqToSet(Flatten(doc)) :
+                    n.k = "specs" => \A m \in SeqToSet(Flatten(n.ch)) : ~(m.k = "leaf" /\ m.ref # 0)
+
 \* family-specific well-formedness of a finished document
 DocOK ==
     /\ doc # <<>>
     /\ AllNodesOK(doc)
+    /\ SpecsRefFree
     /\ \A n \in SeqToSet(Flatten(doc)) :
           /\ (n.k = "leaf" /\ n.ref > 0 /\ HasId(doc, n.ref)) =>
                  /\ NodeById(doc, n.ref).k = "leaf" /\ n.ref # n.id
